@@ -124,7 +124,9 @@ func (g *G) simpleStmt(depth int) *Node {
 			}
 		}
 		return &Node{Kind: "StmtStatic", Kids: []Kid{list("Vars", vs)}, Parts: parts(g.kw("static"), sepList(vs, ","), g.semi())}
-	case k == 13 && g.inHeredoc == 0 && !g.O.Formatter:
+	case k == 13 && g.inHeredoc == 0 && (!g.O.Formatter || g.O.Flex73):
+		// formatter programs: only where the version will be 7.3+ (the formatter leaves code behind the closing
+		// label on the same line, a recorded finding for older versions)
 		return g.heredocStmt(depth)
 	case k == 14:
 		return &Node{Kind: "StmtNop", Parts: parts(t(";"))}
